@@ -35,7 +35,7 @@ _seen = set()
 
 
 def cases(tier):
-    return 400 * len(NAMES) if tier == "quick" else 10000 * len(NAMES)
+    return 1000 * len(NAMES) if tier == "quick" else 10000 * len(NAMES)
 
 
 def setup(tier):
